@@ -11,6 +11,7 @@ package main
 // datatype `JS` (targets of $ref by name) and sent to the driver, next to the REAL GenerateAST output:
 //
 //   -                                              \t case <id> kind=… …                  \t ok
+//   -                                              \t schema <id> <schema text, one line> \t ok
 //   jsfdef <id> (case "<pkg>" ROOT (defs …))       \t ok                                  \t ok
 //   jsfront <id>                                   \t ok <VIR of the real GenerateAST> | err \t ok
 //   defschemas <id>.fe <VIR of the real output>    \t ok                                  \t ok
@@ -563,6 +564,9 @@ func c01FrontEmit(out *bufio.Writer, c frontCase, hist map[string]int) {
 		hist[k] += v
 	}
 	fmt.Fprintf(out, "-\tcase %s kind=%s %s\tok\n", c.ID, c.Kind, c.Note)
+	if jv, err := parseJV([]byte(c.Text)); err == nil {
+		fmt.Fprintf(out, "-\tschema %s %s\tok\n", c.ID, jv.json())
+	}
 	fmt.Fprintf(out, "jsfdef %s %s\tok\tok\n", c.ID, enc)
 	if rerr != nil {
 		if strings.HasPrefix(rerr.Error(), "PANIC") {
